@@ -48,6 +48,8 @@ def run(ck, ctx):
             "Parser.process_line: flag reset dominates process_statement()",
             "every path that parses a statement must first put the lexer into its start state")
     S.t_noglobal(ck, ctx, "C14")
+    # a module-level container of mutable objects must not flow into a parse result (it would be shared by every run / object)
+    S.t_alias(ck, ctx, list(S.run_reachable(ctx)))
     # hash-seed independence
     n = S.t_setord(ck, ctx, [f for f in m.all_funcs()])
     ck.ob("T-SETORD", f"package scanned for order-sensitive uses of set values ({n} set uses)", True, "", "")
